@@ -1,6 +1,7 @@
 import UberjobModel.Lemmas.EnginePath
 import UberjobModel.Lemmas.EngineComplete
 import UberjobModel.Lemmas.Queues
+import UberjobModel.Lemmas.PQueue
 import UberjobModel.Lemmas.GraphWF
 import UberjobModel.Lemmas.EngineExamples
 import UberjobModel.Lemmas.ExecNeeded
@@ -147,7 +148,8 @@ example : ¬ Needed exN 4 ∧ ¬ Needed exN 1 := by
 
 The engine model lets a worker take ANY queued item, so the theorems above already cover every queue discipline that
 neither loses nor duplicates items.  For `RandomQueue` this is proved of the transcribed `_put` / `_get`; for the
-priority heap it is `heapq`'s contract (trusted, compared in every T3 snapshot). -/
+priority heap (`scheduler='default'`) of the transcribed `heapq` algorithms (`Model/PQueue.lean`), which the differential
+in harness/props/c04.py compares with the real `PriorityQueue` (C `_heapq`) list after every operation. -/
 
 /-- `RandomQueue._put`: after the append-and-swap the queue holds the old items plus the new one, whatever index
     `random.randrange` returned. -/
@@ -159,10 +161,32 @@ theorem C04_random_get_perm (q : List Nat) (x : Nat) (rest : List Nat)
     (h : Uberjob.Queues.randomGet q = some (x, rest)) : q.Perm (x :: rest) :=
   Uberjob.Queues.randomGet_perm q x rest h
 
+/-- `PriorityQueue.__init__` (`heapify`): the heap holds exactly the initial items, whatever their priorities. -/
+theorem C04_priority_init_perm (prio : Nat → Int) (items : List Nat) :
+    ((Uberjob.PQueue.init prio items).map (·.2)).Perm items :=
+  Uberjob.PQueue.init_perm prio items
+
+/-- `PriorityQueue._put` (`heappush`): the old items plus the new one - on ANY list, heap-shaped or not, with ties and
+    negative priorities (the DONE sentinel). -/
+theorem C04_priority_put_perm (prio : Nat → Int) (h : List Uberjob.PQueue.E) (item : Nat) :
+    ((Uberjob.PQueue.put prio h item).map (·.2)).Perm (item :: h.map (·.2)) :=
+  Uberjob.PQueue.put_perm prio h item
+
+/-- `PriorityQueue._get` (`heappop`) removes exactly the item it returns, and returns one whenever the heap is not empty. -/
+theorem C04_priority_get_perm (h : List Uberjob.PQueue.E) (v : Nat) (rest : List Uberjob.PQueue.E)
+    (hg : Uberjob.PQueue.get h = some (v, rest)) : (h.map (·.2)).Perm (v :: rest.map (·.2)) :=
+  Uberjob.PQueue.get_perm h v rest hg
+
+theorem C04_priority_get_none (h : List Uberjob.PQueue.E) : Uberjob.PQueue.get h = none ↔ h = [] :=
+  Uberjob.PQueue.get_none h
+
 /-- The queue classes and `create_queue` still have the transcribed shape. -/
 theorem C04_queue_shapes : Uberjob.Gen.Queues.facts.ok = true := by decide
 
 example : (run? diamond ⟨2, some 0⟩ (init diamond) diamondRun).map (·.enq) = some [0, 1, 2, 3] := by decide
 example : Uberjob.Queues.randomPut [5, 6, 7] 9 1 = [5, 9, 7, 6] := by decide
+example : Uberjob.PQueue.init (fun v => [5, 3, -1, 3, 0].getD (v - 1) (-1)) [1, 2, 3, 4, 5]
+    = [(-1, 3), (0, 5), (5, 1), (3, 4), (3, 2)] := by decide
+example : Uberjob.PQueue.get [(-1, 7), (0, 1), (3, 2)] = some (7, [(0, 1), (3, 2)]) := by decide
 
 end Uberjob.Engine
